@@ -27,7 +27,7 @@ CLAIMED = {
     "C15": ("All 5 242 880 hardware-presentable configurations of the CPUID feature bits and OS states the detector reads are injected and the availability flags compared with the property's decision model (exhaustive); the dispatcher is instantiated for about 600 generated architecture lists and run under every relevant availability vector.", "6 C15", "xvcpuid"),
     "C18": ("All allocate/deallocate histories up to length 5 (thorough 6) over a 9-symbol alphabet, for 40 (T, Align) instantiations, executed on the real allocator under AddressSanitizer with a model of live blocks checked after every step; every subset of <= 2 injected posix_memalign failures per history; complete enumeration of the size-overflow window and of the alignment predicates over their residues, for element types with alignof == sizeof and alignof < sizeof.", "6 C18", "xvalloc"),
     "C16": ("Every operand tuple of a stated log-polar grid (all axes and branch cuts with both zero signs, +-1 ulp off the axes) for the arithmetic, fused forms, comparisons, accessors, the interleaved load/store forms through arrays of std::complex<T> and the claimed complex functions is executed on each architecture and compared componentwise with std::complex<long double> within 8 / 32 eps of max(|result|,1); the coverage statement is about this grid.", "6 C16, 5.1", "xvmath"),
-    "C17": ("Every scalar overload of the list is executed on the full operand spaces of C01/C02/C03/C06/C07/C08 (non-NaN operands) under each architecture's compile flags and judged by the same reference model as the batch lanes, so scalar and batch agree wherever the model is single-valued; clip and integer-exponent pow (26 exponents incl. INT_MIN/INT_MAX) are checked in both forms against one shared model; the scalar overloads of 26 elementary functions are judged against the exact result with the bound the property text gives for the family, over the C10/C11 argument spaces.", "6 C17", "xvdrive"),
+    "C17": ("Every scalar overload of the list is executed on the full operand spaces of C01/C02/C03/C06/C07/C08 (non-NaN operands) under each architecture's compile flags and judged by the same reference model as the batch lanes, so scalar and batch agree wherever the model is single-valued; clip and integer-exponent pow (26 exponents incl. INT_MIN/INT_MAX) are checked in both forms against one shared model; the scalar overloads of 26 elementary functions are judged against the exact result with the bound the property text gives for the family, over the C10/C11 argument spaces.", "6 C17", "xvdrive+xvmath"),
     "C19": ("Every template instantiation of the stated pack families (one-hot / all-but-one per lane, arange, reverse, extremes, seed packs, generators, every binary and unary operator over all ordered pairs of an 11-symbol boundary alphabet) for all 8 integer element types and 22 architectures is compiled with static_asserts computed independently by the generator and executed against the run-time conversion; the constant-mask APIs are compared with the run-time forms through the shared index-level reference.", "6 C19", "gen/gen_const.py+xvdrive"),
     "C20": ("Exhaustive in the strict sense: for each of the 25 x86/emulated architectures a generated program asserts, at compile time, the geometry of every (architecture, element type, lane count) triple (about 1170 obligations per architecture), the list order against an independent parent table, arch_list::alignment(), make_sized_batch for N = 1..128 and the trait widths; an aligned load at exactly alignment() is executed on every runnable architecture. The same obligations (with the ARM list order and ILP32 type sizes) are compiled for seven cross-target programs (neon, neon64, i8mm<neon64>, sve 128/256/512, wasm) with clang -fsyntax-only against the host's libstdc++ headers and the shims of /verif/shim: compile-time obligations only, nothing is executed for them.", "6 C20", "gen/gen_geometry.py"),
 }
